@@ -279,3 +279,103 @@ Fixpoint keys_distinct (st : sset) : bool :=
 Definition set_importable (st : sset) : bool :=
   forallb (fun ke => match snd ke with Linked r => root_importable r | Placeholder => false end) st.
 Definition set_closed (st : sset) : bool := refs_resolved st.
+
+(* ---------------------------------------------------------------- which source member each copy line reads *)
+(* The model's slots copy the like-named member of the source value. [expected_import typ key] /
+   [expected_export typ key] is the source text a Go copy line must have for that to be what the Go
+   code does too (ExportProofs.import_rhs_ok / export_rhs_ok compare it with the generated tables). *)
+Definition expected_import (site typ key : string) : option string :=
+  let sel := fun (prefix : string) => Some (prefix ++ key) in
+  match typ with
+  | "ObjectField" => match key with "Rules" | "Flatten" | "Ext" => sel "st.Object." | _ => None end
+  | "OneofField" => match key with "Rules" | "ListRules" | "Ext" => sel "st.Oneof." | _ => None end
+  | "EnumField" => match key with "Rules" | "ListRules" | "Ext" => sel "st.Enum." | _ => None end
+  | "ArrayField" => match key with "Rules" | "Ext" => sel "st.Array." | _ => None end
+  | "MapField" => match key with "Rules" | "Ext" => sel "st.Map." | _ => None end
+  | "AnyField" => match key with
+                  | "OnlyDefined" | "ListRules" => sel "st.Any."
+                  | "Types" => Some "stringSliceConvert(st.Any.Types)"
+                  | _ => None
+                  end
+  | "ScalarSchema" => match key with "Proto" => Some "schema" | _ => None end
+  | "ObjectSchema" => match key with "Entity" | "AnyMember" => sel "sch." | _ => None end
+  | "rootSchema" => match key with "description" => Some "sch.Description" | "name" => Some "sch.Name" | _ => None end
+  | "EnumOption" => match key with
+                    | "name" => Some "src.Name" | "description" => Some "src.Description"
+                    | "number" => Some "src.Number" | "Info" => Some "src.Info" | _ => None
+                    end
+  | "EnumSchema" => match key with
+                    | "NamePrefix" => Some "sch.Prefix" | "InfoFields" => Some "sch.Info" | "Options" => Some "opts" | _ => None
+                    end
+  | "ObjectProperty" => match key with
+                        | "Schema" => Some "propSchema" | "ProtoField" => Some "protoField" | "JSONName" => Some "prop.Name"
+                        | "Required" | "ExplicitlyOptional" | "Description" => sel "prop."
+                        | _ => None
+                        end
+  | "assign" => match key with
+                | "Schema" => Some (if String.eqb site "schemaFromDesc/Field_Array" then "itemSchema" else "valueSchema")
+                | _ => None
+                end
+  | _ => None
+  end.
+
+Definition expected_export (typ key : string) : option string :=
+  let sel := fun (prefix : string) => Some (prefix ++ key) in
+  match typ with
+  | "AnyField" => match key with
+                  | "OnlyDefined" | "ListRules" => sel "s."
+                  | "Types" => Some "stringSliceConvert(s.Types)"
+                  | _ => None
+                  end
+  | "EnumField" | "OneofField" => match key with "Rules" | "ListRules" | "Ext" => sel "s." | _ => None end
+  | "ObjectField" => match key with "Flatten" | "Rules" | "Ext" => sel "s." | _ => None end
+  | "MapField" => match key with "ItemSchema" => Some "item" | "Rules" | "Ext" => sel "s." | _ => None end
+  | "ArrayField" => match key with "Items" => Some "item" | "Rules" | "Ext" => sel "s." | _ => None end
+  | "Ref" => match key with "Package" => Some "s.Ref.Package.Name" | "Schema" => Some "s.Ref.Schema" | _ => None end
+  | "Enum_Option" => match key with
+                     | "Name" => Some "eo.name" | "Number" => Some "eo.number"
+                     | "Description" => Some "eo.description" | "Info" => Some "eo.Info" | _ => None
+                     end
+  | "Enum" => match key with
+              | "Name" => Some "s.name" | "Description" => Some "s.description" | "Options" => Some "options"
+              | "Prefix" => Some "s.NamePrefix" | "Info" => Some "s.InfoFields" | _ => None
+              end
+  | "Object" => match key with
+                | "Description" => Some "s.description" | "Name" => Some "s.name" | "Properties" => Some "properties"
+                | "Entity" => Some "s.Entity" | "AnyMember" => Some "s.AnyMember" | _ => None
+                end
+  | "Oneof" => match key with
+               | "Description" => Some "s.description" | "Name" => Some "s.name" | "Properties" => Some "properties" | _ => None
+               end
+  | "ObjectProperty" => match key with
+                        | "Schema" => Some "prop.Schema.ToJ5Field()" | "Name" => Some "prop.JSONName"
+                        | "Required" | "ExplicitlyOptional" | "Description" => sel "prop."
+                        | "ProtoField" => Some "fieldPath" | _ => None
+                        end
+  | _ => None
+  end.
+
+Definition rhs_table_ok (expected : string -> string -> string -> option string)
+                        (tbl : list (string * string * list (string * string))) : bool :=
+  forallb (fun e => match e with (site, typ, kvs) =>
+                      forallb (fun kv => match expected site typ (fst kv) with
+                                         | Some want => String.eqb want (snd kv)
+                                         | None => true
+                                         end) kvs end) tbl.
+
+(* the Kind a scalar import site sets, as Go source text *)
+Definition expected_kind_text (site : string) : option string :=
+  match site with
+  | "schemaFromDesc/Field_Timestamp" | "schemaFromDesc/Field_Decimal" | "schemaFromDesc/Field_Date" => Some "protoreflect.MessageKind"
+  | "schemaFromDesc/Field_Bool" => Some "protoreflect.BoolKind"
+  | "schemaFromDesc/Field_String_" | "schemaFromDesc/Field_Key" => Some "protoreflect.StringKind"
+  | "schemaFromDesc/Field_Bytes" => Some "protoreflect.BytesKind"
+  | "schemaFromDesc/Field_Integer" => Some "intKind"
+  | "schemaFromDesc/Field_Float" => Some "floatKind"
+  | _ => None
+  end.
+Definition int_format_name (fmt : N) : string :=
+  match fmt with 1%N => "IntegerField_FORMAT_INT32" | 2%N => "IntegerField_FORMAT_INT64"
+               | 3%N => "IntegerField_FORMAT_UINT32" | 4%N => "IntegerField_FORMAT_UINT64" | _ => "?" end.
+Definition float_format_name (fmt : N) : string :=
+  match fmt with 1%N => "FloatField_FORMAT_FLOAT32" | 2%N => "FloatField_FORMAT_FLOAT64" | _ => "?" end.
